@@ -310,3 +310,94 @@ def form_lines(db):
         lines.append(line)
         kept.append((f, roles))
     return lines, kept, skipped
+
+
+# ----------------------------------------------------------------------------------------------------------------------
+# Gen/X86ClassRows.lean: (instruction row of the compiled tables, database form) pairs of the register forms of the
+# VEX-family classes, for the `decide +kernel` layer of Props/C01Rows.lean
+# ----------------------------------------------------------------------------------------------------------------------
+KIND_LEAN = {"gpb": ".gpb", "gpbhi": ".gpbhi", "gpw": ".gpw", "gpd": ".gpd", "gpq": ".gpq", "xmm": ".xmm", "ymm": ".ymm", "zmm": ".zmm", "k": ".k",
+             "mm": ".mm", "st": ".st", "sreg": ".sreg", "creg": ".creg", "dreg": ".dreg", "bnd": ".bnd", "tmm": ".tmm", "none": ".none"}
+ROLE_LEAN = {0: ".none", 1: ".reg", 2: ".rm", 3: ".vvvv", 4: ".is4", 5: ".opc", 6: ".imm", 7: ".rel", 8: ".moff", 9: ".implmem"}
+
+
+def _opt(x):
+    return "none" if x == "-" else "(some %s)" % x
+
+
+def _alt_lean(a):
+    w = a.split(".")
+    if w[0] == "r":
+        return "(.reg %s %s)" % (KIND_LEAN[w[1]], _opt(w[2]))
+    if w[0] == "m":
+        return "(.mem %s %s)" % (_opt(w[1]), KIND_LEAN[w[2]])
+    if w[0] == "i":
+        return "(.imm %s %s %s)" % (w[1], w[2], _opt(w[3]))
+    return "(.rel %s)" % w[1]
+
+
+def rule_lean(form_line):
+    w = form_line.split()[2:]
+    names = ["modes", "space", "pp", "map", "w", "l", "opcode", "ri", "modKind", "modr", "modrm", "immBytes", "relBytes", "moff", "osz", "a67",
+             "tuple", "elem", "kmask", "zmask", "er", "sae", "bcst", "immRev"]
+    bools = {"ri", "moff", "a67", "kmask", "zmask", "er", "sae", "bcst", "immRev"}
+    fields = []
+    for n, v in zip(names, w):
+        fields.append("%s := %s" % (n, ("true" if v == "1" else "false") if n in bools else v))
+    nops = int(w[len(names)])
+    rest = w[len(names) + 1:]
+    ops = []
+    for _ in range(nops):
+        role, impl, na = int(rest[0]), rest[1] == "1", int(rest[2])
+        alts = rest[3:3 + na]
+        rest = rest[3 + na:]
+        ops.append("⟨%s, %s, [%s]⟩" % (ROLE_LEAN[role], "true" if impl else "false", ", ".join(_alt_lean(a) for a in alts)))
+    return "{ " + ", ".join(fields) + ", ops := [" + ", ".join(ops) + "] }"
+
+
+VEX_REG_CLASSES = {"rvm": (0x72, 0x75), "rm": (0x68, 0x6B), "rvmi": (0x7A, 0x7C), "rmi": (0x6F, 0x71)}
+SHAPE_ROLES = {"rvm": ["reg", "vvvv", "rm"], "rm": ["reg", "rm"], "rvmi": ["reg", "vvvv", "rm", "imm"], "rmi": ["reg", "rm", "imm"]}
+
+
+def class_rows_lean(kept, rows, chunk=96):
+    """kept: [(form, roles)], rows: {name: [id, enc, mainOp hex, altOp hex, iflags hex, aflags hex]} -> Lean source"""
+    out = ["/- GENERATED by tools/gen_c01.py from db/isa_x86.json and the compiled instruction tables (harness `row`). -/",
+           "import AsmjitVerif.Spec.X86Decode", "set_option maxRecDepth 100000", "namespace AsmjitVerif.Gen.X86ClassRows", "open Spec.X86", "",
+           "structure Entry where", "  name : String", "  enc : Nat", "  mainOp : BitVec 32", "  iflags : BitVec 32", "  rule : Rule", "  kinds : List RegKind", ""]
+    counts = {}
+    for shape, encs in VEX_REG_CLASSES.items():
+        entries = []
+        for f, roles in kept:
+            r = rows.get(f["name"])
+            if not r or int(r[1]) not in encs or f["prefix"] not in ("VEX", "EVEX"):
+                continue
+            if roles != SHAPE_ROLES[shape]:
+                continue
+            if (f["prefix"] == "EVEX" and not int(r[4], 16) & 0x800000) or (f["prefix"] == "VEX" and not int(r[4], 16) & 0x400000):
+                continue      # database form of an encoding space the instruction table does not implement (e.g. AVX10.2 EVEX vmpsadbw)
+            if int(r[4], 16) & 0x1000000:
+                continue      # kPreferEvex instructions (AVX_VNNI / IFMA): the VEX form needs the `vex` option - not covered by the class theorems
+            kinds = []
+            okf = True
+            for o, role in zip(f["operands"], roles):
+                if role == "imm":
+                    if o["imm"] != 8:
+                        okf = False
+                    continue
+                if o["reg"] not in CLASS or len(CLASS[o["reg"]]) != 1 or o["implicit"]:
+                    okf = False
+                    break
+                kinds.append(CLASS[o["reg"]][0])
+            if not okf:
+                continue
+            line, _ = translate(f)
+            entries.append('  { name := "%s", enc := %d, mainOp := 0x%s#32, iflags := 0x%s#32, kinds := [%s],\n    rule := %s }' % (
+                f["name"], int(r[1]), r[2], r[4], ", ".join(KIND_LEAN[k] for k in kinds), rule_lean(line)))
+        counts[shape] = len(entries)
+        nch = 0
+        for i in range(0, len(entries), chunk):
+            out.append("def %sEntries%d : List Entry := [\n%s]\n" % (shape, nch, ",\n".join(entries[i:i + chunk])))
+            nch += 1
+        out.append("def %sChunks : List (List Entry) := [%s]\n" % (shape, ", ".join("%sEntries%d" % (shape, k) for k in range(nch))))
+    out.append("end AsmjitVerif.Gen.X86ClassRows")
+    return "\n".join(out) + "\n", counts
